@@ -98,6 +98,133 @@ Lemma sub_columns_table q :
   map proj_col (sub_columns (Compile.cq_targets q)) = Compile.t_cols (Compile.subquery_table q).
 Proof. unfold sub_columns. rewrite sub_columns_from_fold. reflexivity. Qed.
 
+(* ---- what the fold says, without the fold: the names keep the order of their first occurrence, and every name is
+   bound to the position and the datatype of the LAST visible target that carries it *)
+Lemma dict_set_keys {A} k (w : A) d :
+  map fst (Compile.dict_set k w d) = if existsb (String.eqb k) (map fst d) then map fst d else map fst d ++ [k].
+Proof.
+  induction d as [|[k' v] t IH]; [reflexivity|].
+  cbn [Compile.dict_set map fst existsb]. destruct (String.eqb k k'); cbn [orb map fst]; [reflexivity|].
+  rewrite IH. destruct (existsb (String.eqb k) (map fst t)); reflexivity.
+Qed.
+
+Lemma existsb_eqb_In k l : existsb (String.eqb k) l = true <-> In k l.
+Proof.
+  rewrite existsb_exists. split.
+  - intros [x [Hx E]]. apply String.eqb_eq in E. now subst.
+  - intros H. exists k. split; [exact H|apply String.eqb_refl].
+Qed.
+
+Lemma nodup_snoc {A} (l : list A) k : NoDup l -> ~ In k l -> NoDup (l ++ [k]).
+Proof.
+  induction 1 as [|x l Hx Hl IH]; intros Hk; cbn [app].
+  - constructor; [intros []|constructor].
+  - constructor.
+    + intros Hin. apply in_app_or in Hin as [Hin|[<-|[]]]; [contradiction|]. apply Hk. now left.
+    + apply IH. intros Hin. apply Hk. now right.
+Qed.
+
+Lemma dict_set_nodup {A} k (w : A) d : NoDup (map fst d) -> NoDup (map fst (Compile.dict_set k w d)).
+Proof.
+  intros H. rewrite dict_set_keys. destruct (existsb (String.eqb k) (map fst d)) eqn:E; [exact H|].
+  apply nodup_snoc; [exact H|]. intros Hin. apply existsb_eqb_In in Hin. congruence.
+Qed.
+
+Lemma dict_set_In {A} k (w : A) d n v :
+  NoDup (map fst d) ->
+  (In (n, v) (Compile.dict_set k w d) <-> (n = k /\ v = w) \/ (n <> k /\ In (n, v) d)).
+Proof.
+  induction d as [|[k' v'] t IH]; intros Hnd.
+  - cbn. split; [intros [E|[]]; injection E as <- <-; now left|intros [[-> ->]|[_ []]]; now left].
+  - cbn [map fst] in Hnd. inversion Hnd as [|? ? Hnot Hnd']; subst.
+    cbn [Compile.dict_set]. destruct (String.eqb k k') eqn:E.
+    + apply String.eqb_eq in E. subst k'. cbn [In]. split.
+      * intros [H|H]; [injection H as <- <-; now left|].
+        right. split; [|now right]. intros ->. apply Hnot. apply (in_map fst) in H. exact H.
+      * intros [[-> ->]|[Hne [H|H]]]; [now left| |now right]. injection H as -> _. congruence.
+    + apply String.eqb_neq in E. cbn [In]. rewrite (IH Hnd'). split.
+      * intros [H|[[-> ->]|[Hne H]]]; [|now left|right; split; [exact Hne|now right]].
+        injection H as <- <-. right. split; [congruence|now left].
+      * intros [[-> ->]|[Hne [H|H]]]; [right; now left|now left|right; right; split; assumption].
+Qed.
+
+Definition names_step (l : list string) (t : Compile.ctarget) : list string :=
+  match Compile.ct_name t with
+  | Some n => if existsb (String.eqb n) l then l else l ++ [n]
+  | None => l
+  end.
+
+Lemma sub_columns_from_names : forall vis k d,
+  map fst (sub_columns_from k vis d) = fold_left names_step vis (map fst d).
+Proof.
+  induction vis as [|t r IH]; intros k d; [reflexivity|].
+  cbn [sub_columns_from fold_left]. rewrite IH. f_equal. unfold names_step.
+  destruct (Compile.ct_name t); [apply dict_set_keys|reflexivity].
+Qed.
+
+Lemma sub_columns_from_nodup : forall vis k d, NoDup (map fst d) -> NoDup (map fst (sub_columns_from k vis d)).
+Proof.
+  induction vis as [|t r IH]; intros k d H; [exact H|].
+  cbn [sub_columns_from]. apply IH. destruct (Compile.ct_name t); [apply dict_set_nodup|]; exact H.
+Qed.
+
+Definition last_named (vis : list Compile.ctarget) (j : nat) (n : string) (dt : string) : Prop :=
+  exists t, nth_error vis j = Some t /\ Compile.ct_name t = Some n /\ dt = Compile.dtype (Compile.ct_expr t) /\
+            forall j' t', (j < j')%nat -> nth_error vis j' = Some t' -> Compile.ct_name t' <> Some n.
+
+Lemma sub_columns_from_spec : forall vis k d, NoDup (map fst d) -> forall n i dt,
+  In (n, (i, dt)) (sub_columns_from k vis d) <->
+  (exists j, i = (k + j)%nat /\ last_named vis j n dt) \/
+  (In (n, (i, dt)) d /\ forall t, In t vis -> Compile.ct_name t <> Some n).
+Proof.
+  induction vis as [|t r IH]; intros k d Hnd n i dt.
+  - cbn [sub_columns_from]. split.
+    + intros H. right. split; [exact H|intros t []].
+    + intros [[j [_ [t [Hj _]]]]|[H _]]; [destruct j; discriminate|exact H].
+  - cbn [sub_columns_from].
+    set (d' := match Compile.ct_name t with
+               | Some m => Compile.dict_set m (k, Compile.dtype (Compile.ct_expr t)) d
+               | None => d
+               end).
+    match goal with |- _ <-> ?R => change (In (n, (i, dt)) (sub_columns_from (S k) r d') <-> R) end.
+    assert (Hnd' : NoDup (map fst d')) by (unfold d'; destruct (Compile.ct_name t); [apply dict_set_nodup|]; exact Hnd).
+    rewrite (IH (S k) d' Hnd' n i dt). split.
+    + intros [[j [-> [t' [Hj [Hn [Hd Hl]]]]]]|[Hin Hr]].
+      * left. exists (S j). split; [lia|]. exists t'. repeat split; try assumption.
+        intros [|j'] t'' Hlt Hj'; [lia|]. apply (Hl j' t''); [lia|exact Hj'].
+      * unfold d' in Hin. destruct (Compile.ct_name t) as [m|] eqn:Em.
+        -- apply dict_set_In in Hin; [|exact Hnd]. destruct Hin as [[-> E]|[Hne Hin]].
+           ++ injection E as -> ->. left. exists 0%nat. split; [lia|]. exists t. repeat split; try assumption.
+              intros [|j'] t'' Hlt Hj'; [lia|]. apply Hr. cbn [nth_error] in Hj'. apply (nth_error_In _ _ Hj').
+           ++ right. split; [exact Hin|]. intros t' [<-|Ht']; [congruence|apply Hr; exact Ht'].
+        -- right. split; [exact Hin|]. intros t' [<-|Ht']; [congruence|apply Hr; exact Ht'].
+    + intros [[[|j] [-> [t' [Hj [Hn [Hd Hl]]]]]]|[Hin Hr]].
+      * cbn in Hj. injection Hj as <-. right. split.
+        -- unfold d'. rewrite Hn. apply dict_set_In; [exact Hnd|]. left. rewrite Nat.add_0_r. subst dt. now split.
+        -- intros t' Ht'. apply In_nth_error in Ht' as [j' Hj']. apply (Hl (S j') t'); [lia|exact Hj'].
+      * left. exists j. split; [lia|]. exists t'. repeat split; try assumption.
+        intros j' t'' Hlt Hj'. apply (Hl (S j') t''); [lia|exact Hj'].
+      * right. split.
+        -- unfold d'. destruct (Compile.ct_name t) as [m|] eqn:Em; [|exact Hin].
+           apply dict_set_In; [exact Hnd|]. right. split; [|exact Hin].
+           intros ->. apply (Hr t); [now left|exact Em].
+        -- intros t' Ht'. apply Hr. now right.
+Qed.
+
+(* the columns of the subquery table: no name twice, names in the order of their first visible occurrence, and the entry
+   of a name holds the position among the visible targets, and the datatype, of the LAST visible target with that name *)
+Theorem sub_columns_spec ts :
+  NoDup (map fst (sub_columns ts)) /\
+  map fst (sub_columns ts) = fold_left names_step (Compile.visible ts) [] /\
+  forall n i dt, In (n, (i, dt)) (sub_columns ts) <-> last_named (Compile.visible ts) i n dt.
+Proof.
+  unfold sub_columns. split; [apply sub_columns_from_nodup; constructor|].
+  split; [apply sub_columns_from_names|].
+  intros n i dt. rewrite sub_columns_from_spec by constructor. split.
+  - intros [[j [-> H]]|[[] _]]. exact H.
+  - intros H. left. exists i. split; [reflexivity|exact H].
+Qed.
+
 (* ------------------------------------------------------------------ compositional evaluation (any oracles) *)
 Section Gen.
 Variable call_ref : nat -> list pv -> pv.
